@@ -82,7 +82,7 @@ def run(res):
     found = 0
     if out is None:
         res.violation("harness-abort", "the hop-grid harness did not complete on the current tree (rc=%d): %s" % (rc, se[-400:]),
-                      {"stderr": se[-3000:], "correspondence": "cmd/c09 vs Model/Hops.v"}, found_input=False)
+                      {"stderr": se[-3000:], "panic": "panic:" in se, "correspondence": "cmd/c09 vs Model/Hops.v"}, found_input=("panic:" in se))
         res.coverage.update({"evaluations": 0, "distinct_nontrivial": 0, "rule": "harness aborted", "samples": []})
     else:
         text = open(defs).read()
